@@ -3,8 +3,9 @@
    extended-key serialisation; the descriptor language itself is not modelled here).
    Only statements; each is closed by `exact` of a lemma from proofs/. *)
 From Coq Require Import NArith ZArith.
-From BV Require Import lib.Ints gen.Params_gen model.Bech32 model.EC model.Bip32
-  proofs.Bech32Lemmas proofs.Bech32Detect proofs.ECGroup proofs.Bip32Lemmas.
+From BV Require Import lib.Ints gen.Params_gen model.Bech32 model.Base58 model.KeyIo model.KeyIoInst model.EC model.Bip32 model.Bip32Inst
+  proofs.Bech32Lemmas proofs.Bech32Detect proofs.Bech32Convert proofs.Base58Lemmas proofs.KeyIoLemmas proofs.KeyIoChains
+  proofs.ECGroup proofs.Bip32Lemmas.
 Local Open Scope N_scope.
 
 (* ---- bech32 / bech32m ---- *)
@@ -58,6 +59,84 @@ Theorem C45_bech32_detects_up_to_4_substitutions : forall e hrp w w', length w' 
   verify_checksum hrp w = VEnc e -> verify_checksum hrp w' <> VEnc e.
 Proof. exact bech32_detects_4. Qed.
 Print Assumptions C45_bech32_detects_up_to_4_substitutions.
+
+(* ... but only symbols: changing the case of the only letter of a string is a 1-character substitution that still
+   decodes ("219460f373" / "219460F373", replayed on the real bech32::Decode) *)
+Theorem C45_bech32_case_only_substitution_refuted :
+  exists s s' e hrp data, length s = length s' /\
+    (length (filter (fun p => negb (fst p =? snd p)) (combine s s')) = 1)%nat /\
+    decode 90 s = DecOk e hrp data /\ decode 90 s' = DecOk e hrp data.
+Proof. exact bech32_case_substitution_refuted. Qed.
+Print Assumptions C45_bech32_case_only_substitution_refuted.
+
+(* ---- ConvertBits ---- *)
+(* ConvertBits<8,5,true> never fails and yields ceil(8n/5) five-bit symbols *)
+Theorem C45_convertbits_8_to_5_total : forall l, Bech32Convert.bytes_ok l ->
+  exists o, convert_bits 8 5 true l = Some o /\ syms5_ok o /\ length o = ((8 * length l + 4) / 5)%nat.
+Proof. exact convert_8_5_total. Qed.
+Print Assumptions C45_convertbits_8_to_5_total.
+
+(* 8 -> 5 (padded) -> 8 (unpadded) is the identity on every byte string *)
+Theorem C45_convertbits_roundtrip : forall l o, Bech32Convert.bytes_ok l ->
+  convert_bits 8 5 true l = Some o -> convert_bits 5 8 false o = Some l.
+Proof. exact convert_5_8_of_8_5. Qed.
+Print Assumptions C45_convertbits_roundtrip.
+
+(* 5 -> 8 accepts only canonical padding (fewer than 5 spare bits, all zero): what it accepts re-encodes to itself *)
+Theorem C45_convertbits_5_to_8_canonical : forall v b, syms5_ok v -> convert_bits 5 8 false v = Some b ->
+  Bech32Convert.bytes_ok b /\ N.of_nat (length b) = 5 * N.of_nat (length v) / 8 /\ convert_bits 8 5 true b = Some v.
+Proof. exact convert_5_8_canonical. Qed.
+Print Assumptions C45_convertbits_5_to_8_canonical.
+
+(* ---- base58 / base58check ---- *)
+(* the b58 / b256 work buffers (len*138/100+1, len*733/1000+1) always suffice: assert(carry == 0) never fires *)
+Theorem C45_base58_encode_never_asserts : forall input, Base58Lemmas.bytes_ok input -> exists s, encode_base58 input = B58Str s.
+Proof. exact encode_base58_never_asserts. Qed.
+Print Assumptions C45_base58_encode_never_asserts.
+
+(* DecodeBase58 (EncodeBase58 x) = x for every byte string (leading zero bytes <-> leading '1's) whenever the
+   length limit allows x *)
+Theorem C45_base58_decode_encode : forall input mx s, Base58Lemmas.bytes_ok input -> N.of_nat (length input) <= mx ->
+  encode_base58 input = B58Str s -> decode_base58 s mx = B58Bytes input.
+Proof. exact decode_encode_base58. Qed.
+Print Assumptions C45_base58_decode_encode.
+
+(* base58check with the 4-byte checksum of any 32-byte hash function *)
+Theorem C45_base58check_decode_encode : forall (hash256 : list N -> list N),
+  (forall x, length (hash256 x) = 32%nat) -> (forall x, Base58Lemmas.bytes_ok (hash256 x)) ->
+  forall payload mx s, Base58Lemmas.bytes_ok payload -> N.of_nat (length payload) <= mx -> mx <= 2147483643 ->
+  encode_base58check hash256 payload = B58Str s -> decode_base58check hash256 s mx = B58Bytes payload.
+Proof. exact decode_encode_base58check. Qed.
+Print Assumptions C45_base58check_decode_encode.
+
+(* ---- addresses ---- *)
+(* segwit: the string built for (variant, version, program) decodes to the classification of (version, program) iff
+   the variant matches the version: version 0 <=> bech32, version 1+ <=> bech32m, in both directions *)
+Theorem C45_segwit_decode_encode_and_variant_rule : forall (hash256 : list N -> list N) limit kp, hrp_ok (kp_hrp kp) ->
+  forall enc ver prog s, Bech32Convert.bytes_ok prog -> ver < 32 ->
+  (length (kp_hrp kp) + 1 + (1 + (8 * length prog + 4) / 5) + 6 <= limit)%nat ->
+  segwit_encode kp enc ver prog = AddrStr s ->
+  decode_destination hash256 limit kp s =
+    if (ver =? 0) && negb (encoding_eqb enc BECH32) then (DNone, E_v0_needs_bech32)
+    else if negb (ver =? 0) && negb (encoding_eqb enc BECH32M) then (DNone, E_v1_needs_bech32m)
+    else classify_witness ver prog.
+Proof. exact segwit_decode_encode. Qed.
+Print Assumptions C45_segwit_decode_encode_and_variant_rule.
+
+(* every destination type on every chain of the compiled tree: DecodeDestination (EncodeDestination d) = d *)
+Theorem C45_address_roundtrip_every_chain : forall (hash256 : list N -> list N),
+  (forall x, length (hash256 x) = 32%nat) -> (forall x, Base58Lemmas.bytes_ok (hash256 x)) ->
+  forall kp d s, In kp keyio_chains -> dest_wf d = true ->
+  encode_destination hash256 kp d = AddrStr s -> decode_destination hash256 bech32_limit kp s = (d, E_ok).
+Proof. exact address_roundtrip_all_chains. Qed.
+Print Assumptions C45_address_roundtrip_every_chain.
+
+(* the letter of "addresses round-trip" is false for destinations only direct construction can produce:
+   WitnessUnknown(1, 4e73) decodes as PayToAnchor (and WitnessUnknown(1, 32 bytes) as WitnessV1Taproot) *)
+Theorem C45_address_roundtrip_noncanonical_refuted :
+  exists kp d s, In kp keyio_chains /\ addr_encode kp d = AddrStr s /\ fst (addr_decode kp s) <> d /\ snd (addr_decode kp s) = E_ok.
+Proof. exact address_roundtrip_noncanonical_refuted. Qed.
+Print Assumptions C45_address_roundtrip_noncanonical_refuted.
 
 (* ---- BIP32 ---- *)
 Local Open Scope Z_scope.
